@@ -108,7 +108,11 @@ func (w *c12Walk) show() string {
 func (w *c12Walk) expect(method, key, sig, why string) *hreq {
 	q := w.peek()
 	if q == nil || q.method != method || q.key != key {
-		if q != nil && q.method == "DELETE" && method == "POST" {
+		switch {
+		case q == nil:
+		case q.key != key:
+			sig = "C12:order" // another hook is handled than the one whose turn it is
+		case q.method == "DELETE" && method == "POST":
 			sig = "C12:unexpected-hook-deletion"
 		}
 		w.add(sig, fmt.Sprintf("expected %s %s (%s), observed %s", method, key, why, w.show()))
